@@ -3,7 +3,7 @@
     situations the property text talks about.  [hashf] (Pool::hash_value) is universally quantified;
     theorems that need collision-freedom carry [hash_inj hashf] as an explicit premise. *)
 From Coq Require Import Arith Bool List.
-From PV Require Import Reload.Model Reload.Proofs.
+From PV Require Import Reload.Model Reload.Proofs Reload.Mutants.
 Import ListNotations.
 
 (** "A RELOAD or SIGHUP with an invalid file leaves configuration, pools and server connections as
@@ -47,18 +47,50 @@ Theorem c14_unchanged_kept_world : forall hashf w c bo w' ob d u h pid pd us,
 Proof. exact unchanged_kept_world. Qed.
 Print Assumptions c14_unchanged_kept_world.
 
-(** "changed, added or removed pools are in effect for every transaction that starts afterwards"
-    (hypothesis [all_built]: every build of the new configuration succeeds — see F12 below).
+(** A file that is valid but whose pools cannot be built (bb8 build() returns an error: validate_config,
+    min_pool_size >= 1, server unreachable) behaves like an invalid one since commit 0510794: Err, and
+    CONFIG, POOLS, the id supply and the pool objects are as they were ... *)
+Theorem c14_failed_build_noop : forall hashf s c bo n,
+  cfg_eqb (config s) c = false -> a_st (from_config hashf (pools s) c bo n) = FcErr ->
+  reload hashf s (Valid c bo) n = (s, RErr, n, []).
+Proof. exact failed_build_noop. Qed.
+Print Assumptions c14_failed_build_noop.
+
+(** ... hence the next reload of the same file is NOT "unchanged": once every build succeeds it answers
+    Ok(true) and the file is in effect. *)
+Theorem c14_retry_rebuilds : forall hashf ob s c bo bo' n,
+  wf_cfg c -> store_ok hashf ob (pools s) -> cfg_eqb (config s) c = false ->
+  a_st (from_config hashf (pools s) c bo n) = FcErr -> all_built c bo' = true ->
+  exists s1 r1 n1 new1 s2 n2 new2,
+    reload hashf s (Valid c bo) n = (s1, r1, n1, new1) /\ r1 = RErr /\
+    reload hashf s1 (Valid c bo') n1 = (s2, ROk true, n2, new2) /\
+    config s2 = c /\ in_effect hashf (new2 ++ ob) c (pools s2).
+Proof. exact retry_rebuilds. Qed.
+Print Assumptions c14_retry_rebuilds.
+
+(** The only results of a reload with a valid, changed file. *)
+Theorem c14_reload_result : forall hashf s c bo n s' r n' new,
+  cfg_eqb (config s) c = false -> reload hashf s (Valid c bo) n = (s', r, n', new) ->
+  match a_st (from_config hashf (pools s) c bo n) with
+  | FcOk => r = ROk true
+  | FcErr => r = RErr /\ s' = s /\ n' = n /\ new = []
+  | FcPanic => r = RPanic /\ s' = {| config := c; pools := pools s |} /\ n' = n /\ new = []
+  end.
+Proof. exact reload_result. Qed.
+Print Assumptions c14_reload_result.
+
+(** "changed, added or removed pools are in effect for every transaction that starts afterwards":
+    WHENEVER a reload answers Ok(true) — no hypothesis on the builds any more.
     Store form: right after the reload, [get_pool] of every (pool, user)
     - of the new configuration resolves to an object whose definition has the configured hash
       (with [hash_inj]: IS the configured definition, see c14_in_effect_exact); if the old POOLS had
       no object with that hash (changed or added) it is an object built by this reload
       ([next_pool w <= p]) from exactly the configured definition;
     - not in the new configuration (pool or user removed) resolves to nothing. *)
-Theorem c14_changed_in_effect : forall hashf w c bo w1 ob,
-  winv hashf w -> wf_cfg c -> all_built c bo = true -> cfg_eqb (config (st w)) c = false ->
-  step hashf w (OReload (Valid c bo)) = (w1, ob) ->
-  ob = ObReload (ROk true) /\ config (st w1) = c /\
+Theorem c14_changed_in_effect : forall hashf w c bo w1,
+  winv hashf w -> wf_cfg c ->
+  step hashf w (OReload (Valid c bo)) = (w1, ObReload (ROk true)) ->
+  config (st w1) = c /\
   forall d u,
     match clookup d (cpools c) with
     | Some (pd, us) =>
@@ -74,9 +106,9 @@ Print Assumptions c14_changed_in_effect.
 (** Transaction form: after the reload, let the clients do anything (connect, begin, end, leave —
     any number of steps, no further reload); the next transaction of a client whose (pool, user)
     is in the new configuration runs on a server of such an object. *)
-Theorem c14_changed_in_effect_txn : forall hashf w c bo w1 ob ops w2 obs cl x pd us,
-  winv hashf w -> wf_cfg c -> all_built c bo = true -> cfg_eqb (config (st w)) c = false ->
-  step hashf w (OReload (Valid c bo)) = (w1, ob) ->
+Theorem c14_changed_in_effect_txn : forall hashf w c bo w1 ops w2 obs cl x pd us,
+  winv hashf w -> wf_cfg c ->
+  step hashf w (OReload (Valid c bo)) = (w1, ObReload (ROk true)) ->
   Forall (fun o => actor o <> None) ops -> run hashf w1 ops = (w2, obs) ->
   cl_lookup cl (clients w2) = Some x -> cheld x = None ->
   clookup (cdb x) (cpools c) = Some (pd, us) -> In (cuser x) us ->
@@ -87,11 +119,11 @@ Theorem c14_changed_in_effect_txn : forall hashf w c bo w1 ob ops w2 obs cl x pd
 Proof. exact changed_in_effect_txn. Qed.
 Print Assumptions c14_changed_in_effect_txn.
 
-(** The invariant behind it, over every run from start-up in which no build failed: CONFIG and POOLS
-    agree ([in_effect]: POOLS holds exactly the (pool, user) pairs of CONFIG, each with an object
+(** The invariant behind it, over every run from start-up in which no build PANICKED (builds may fail):
+    CONFIG and POOLS agree ([in_effect]: POOLS holds exactly the (pool, user) pairs of CONFIG, each with an object
     built from a definition with the configured hash). *)
 Theorem c14_config_pools_agree : forall hashf ops w obs,
-  Forall op_wf ops -> existsb op_known_f12 ops = false ->
+  Forall op_wf ops -> existsb op_known_panic ops = false ->
   run hashf empty_world ops = (w, obs) -> agree hashf w.
 Proof. exact config_pools_agree. Qed.
 Print Assumptions c14_config_pools_agree.
@@ -126,9 +158,9 @@ Print Assumptions c14_inflight_ends.
 (** "clients of a removed pool get an error rather than another pool's servers": the next
     transaction of a client whose pool (or user) is not in the new configuration is answered
     "No pool configured", its task ends, and no server connection is opened or changes hands. *)
-Theorem c14_removed_pool_error : forall hashf w c bo w1 ob ops w2 obs cl x,
-  winv hashf w -> wf_cfg c -> all_built c bo = true -> cfg_eqb (config (st w)) c = false ->
-  step hashf w (OReload (Valid c bo)) = (w1, ob) ->
+Theorem c14_removed_pool_error : forall hashf w c bo w1 ops w2 obs cl x,
+  winv hashf w -> wf_cfg c ->
+  step hashf w (OReload (Valid c bo)) = (w1, ObReload (ROk true)) ->
   Forall (fun o => actor o <> None) ops -> run hashf w1 ops = (w2, obs) ->
   cl_lookup cl (clients w2) = Some x -> cheld x = None ->
   (match clookup (cdb x) (cpools c) with Some (_, us) => ~ In (cuser x) us | None => True end) ->
@@ -152,29 +184,51 @@ Theorem c14_winv_every_run : forall hashf ops w obs, run hashf empty_world ops =
 Proof. exact winv_every_run. Qed.
 Print Assumptions c14_winv_every_run.
 
-(** F12 — why [all_built] is a hypothesis.  parse() stores CONFIG before from_config runs; when a
-    build fails (or panics) POOLS keeps the old map, CONFIG is the new file, the caller gets an error —
-    and from then on reloading the same file compares it with the ALREADY STORED copy: "unchanged",
-    Ok(false), from_config never runs again, whatever the builds would do now. *)
+(** What is left of F12: parse() still stores CONFIG before from_config runs, and only an Err is
+    followed by the restore.  If a build PANICS (no such input is known: Config::validate rejects what
+    the bb8 assertions and unwraps would trip on, C15) the unwinding skips the restore: POOLS keeps the old
+    map, CONFIG is the new file, and reloading the same file answers Ok(false) from then on. *)
 Theorem c14_partial_state : forall hashf s c bo n,
-  wf_cfg c -> cfg_eqb (config s) c = false -> a_st (from_config hashf (pools s) c bo n) <> FcOk ->
+  wf_cfg c -> cfg_eqb (config s) c = false -> a_st (from_config hashf (pools s) c bo n) = FcPanic ->
   let s1 := {| config := c; pools := pools s |} in
-  (exists r, r <> ROk true /\ r <> ROk false /\ reload hashf s (Valid c bo) n = (s1, r, n, [])) /\
+  reload hashf s (Valid c bo) n = (s1, RPanic, n, []) /\
   forall bo' n', reload hashf s1 (Valid c bo') n' = (s1, ROk false, n', []).
 Proof. exact partial_state. Qed.
 Print Assumptions c14_partial_state.
 
-(** Witness (confirmed on the implementation by props/c14.py): pool (0,0) is redefined (definition 10 ->
-    11) while its build fails; the reload errs; the retry with all builds succeeding answers Ok(false);
-    the client's next transaction runs on the object built from definition 10 although CONFIG says 11. *)
-Theorem c14_partial_refuted :
-  Forall op_wf f12_ops /\
-  exists w, run idh empty_world f12_ops =
-              (w, [ObReload (ROk true); ObConnected 0; ObReload RErr; ObReload (ROk false); ObBegun 0 0 false]) /\
+Theorem c14_panic_partial_refuted :
+  Forall op_wf panic_ops /\
+  exists w, run idh empty_world panic_ops =
+              (w, [ObReload (ROk true); ObConnected 0; ObReload RPanic; ObReload (ROk false); ObBegun 0 0 false]) /\
             config (st w) = f12_new /\ pools (st w) = [((0, 0), (10, 0))] /\ objs w = [(0, ((0, 0), 10))] /\
             ~ agree idh w.
-Proof. exact partial_refuted. Qed.
-Print Assumptions c14_partial_refuted.
+Proof. exact panic_partial_refuted. Qed.
+Print Assumptions c14_panic_partial_refuted.
+
+(** F12 regression (the scenario props/c14.py replays on the implementation): pool (0,0) is redefined
+    (10 -> 11) while its build fails: Err and nothing changes (the world after 3 steps is the world after
+    2); the retry with all builds succeeding answers Ok(true); the client's next transaction runs on the
+    object built from definition 11. *)
+Theorem c14_f12_regression :
+  exists w, run idh empty_world f12_ops =
+              (w, [ObReload (ROk true); ObConnected 0; ObReload RErr; ObReload (ROk true); ObBegun 1 1 true]) /\
+            config (st w) = f12_new /\ pools (st w) = [((0, 0), (11, 1))] /\ agree idh w /\
+            fst (run idh empty_world (firstn 3 f12_ops)) = fst (run idh empty_world (firstn 2 f12_ops)).
+Proof. exact f12_regression. Qed.
+Print Assumptions c14_f12_regression.
+
+(** The code before the repair (Mutants.v: [reload_store_first], CONFIG not restored on Err) is refuted:
+    from a store where CONFIG and POOLS agree, a failed build followed by a successful retry of the same
+    file ends with Ok(false), CONFIG = new file, POOLS = old pools. *)
+Theorem c14_mutant_store_first_refuted :
+  in_effect idh mut_objs (config mut_s0) (pools mut_s0) /\
+  exists s1 s2,
+    reload_store_first idh mut_s0 (Valid f12_new (bo_of [(0, 0)] [])) 1 = (s1, RErr, 1, []) /\
+    reload_store_first idh s1 (Valid f12_new (bo_of [] [])) 1 = (s2, ROk false, 1, []) /\
+    config s2 = f12_new /\ pools s2 = pools mut_s0 /\
+    ~ in_effect idh mut_objs (config s2) (pools s2).
+Proof. exact store_first_refuted. Qed.
+Print Assumptions c14_mutant_store_first_refuted.
 
 (** ------------------------------------------------------------------ non-vacuity *)
 
@@ -232,8 +286,13 @@ Example ex_story_inflight :
   = [(1, 1, 2); (0, 0, 1)].
 Proof. vm_compute. reflexivity. Qed.
 
-(** a build that panics leaves the same partial state as one that fails *)
+(** a build that panics leaves CONFIG new and POOLS old; one that fails leaves everything as it was *)
 Example ex_panic_partial :
   reload idh {| config := f12_old; pools := [((0, 0), (10, 0))] |} (Valid f12_new (bo_of [] [(0, 0)])) 1
   = ({| config := f12_new; pools := [((0, 0), (10, 0))] |}, RPanic, 1, []).
+Proof. reflexivity. Qed.
+
+Example ex_fail_noop :
+  reload idh {| config := f12_old; pools := [((0, 0), (10, 0))] |} (Valid f12_new (bo_of [(0, 0)] [])) 1
+  = ({| config := f12_old; pools := [((0, 0), (10, 0))] |}, RErr, 1, []).
 Proof. reflexivity. Qed.
